@@ -366,21 +366,38 @@ func getRulesOfResource(res string) []*Rule {
 // GetRules returns all the rules based on copy.
 // It doesn't take effect for flow module if user changes the rule.
 func GetRules() []Rule {
-	rules := getRules()
-	ret := make([]Rule, 0, len(rules))
-	for _, rule := range rules {
-		ret = append(ret, *rule)
+	tcMux.RLock()
+	defer tcMux.RUnlock()
+
+	ret := make([]Rule, 0, 8)
+	for _, resTcs := range tcMap {
+		for _, tc := range resTcs {
+			if tc != nil && tc.BoundRule() != nil {
+				ret = append(ret, reportedRuleOf(tc))
+			}
+		}
 	}
+	return ret
+}
+
+// reportedRuleOf is the copy of a controller's rule that the getters hand out. It carries the ID the rule was
+// last loaded under: a controller kept for a rule that was only renamed still holds the old rule object.
+func reportedRuleOf(tc *TrafficShapingController) Rule {
+	ret := *tc.BoundRule()
+	ret.ID = tc.loadedRuleID()
 	return ret
 }
 
 // GetRulesOfResource returns specific resource's rules based on copy.
 // It doesn't take effect for flow module if user changes the rule.
 func GetRulesOfResource(res string) []Rule {
-	rules := getRulesOfResource(res)
-	ret := make([]Rule, 0, len(rules))
-	for _, rule := range rules {
-		ret = append(ret, *rule)
+	tcMux.RLock()
+	defer tcMux.RUnlock()
+
+	resTcs := tcMap[res]
+	ret := make([]Rule, 0, len(resTcs))
+	for _, tc := range resTcs {
+		ret = append(ret, reportedRuleOf(tc))
 	}
 	return ret
 }
